@@ -42,6 +42,7 @@ def _replay_chunk(args):
     nvec = ncalls = nontriv = 0
     found = {}
     kernel_err = None
+    classes = set()
 
     def add(p, vec, fl):
         key, what, detail = p
@@ -58,6 +59,7 @@ def _replay_chunk(args):
         if err:
             kernel_err = (err, inp)
             break
+        classes.add((inp['method'], bool(inp['rm']), bool(inp['useDesc']), inp.get('foldsrc', '')))
         labs = set(inp['lab']) | set(inp.get('lab2', []))
         if len(labs) >= 2:
             nontriv += 1
@@ -75,18 +77,20 @@ def _replay_chunk(args):
                 ncalls += 1
                 for p in C.float_case(vec, rng, pid):
                     add(p, vec, 'float tier')
-    return nvec, ncalls, nontriv, found, kernel_err
+    return nvec, ncalls, nontriv, found, kernel_err, classes
 
 
-def replay(ctx, r, pid, *, nfloat=0, chunk=150, procs=16):
+def replay(ctx, r, pid, *, nfloat=0, chunk=150, procs=16, want=None):
     def jobs():
         base = 0
         for lines in r.iter_lines(chunk):
             yield (base, lines, ctx.seed, pid, nfloat)
             base += len(lines)
     total = 0
+    seen = set()
     with mp.Pool(procs) as pool:
-        for nvec, ncalls, nontriv, found, kerr in pool.imap_unordered(_replay_chunk, jobs()):
+        for nvec, ncalls, nontriv, found, kerr, classes in pool.imap_unordered(_replay_chunk, jobs()):
+            seen |= classes
             if kerr:
                 raise MachineryError(f'{kerr[0]} on input {kerr[1]}')
             total += nvec
@@ -96,6 +100,13 @@ def replay(ctx, r, pid, *, nfloat=0, chunk=150, procs=16):
                 for _ in range(n):
                     ctx.violation(key, what, case)
     ctx.traces += total
+    # vacuity guard: every configured method / remove_mean / descriptor / fold-source value was replayed
+    if want:
+        have = {'methods': {c[0] for c in seen}, 'rms': {c[1] for c in seen}, 'usedescs': {c[2] for c in seen},
+                'foldsrcs': {c[3] for c in seen}}
+        for k, vals in want.items():
+            if k in have and not set(vals) <= have[k]:
+                raise MachineryError(f'vacuous run: configured {k} {sorted(map(str, vals))} but replayed only {sorted(map(str, have[k]))}')
     return total
 
 
@@ -123,7 +134,7 @@ def _record(args):
 
 
 def record_and_validate(ctx, pid, modes, ntraces, *, procs=16):
-    jobs = [(ctx.seed * 1000003 + 17 * i + 1, modes[i % len(modes)]) for i in range(ntraces)]
+    jobs = [(ctx.seed * 1000003 + 17 * i + 1 + (i // len(modes)) % 4, modes[i % len(modes)]) for i in range(ntraces)]
     with mp.Pool(procs) as pool:
         recs = pool.map(_record, jobs, chunksize=8)
     traces, meta = [], []
@@ -205,6 +216,8 @@ def validate(ctx, pid, traces, meta, name, report=True):
             key = f"{pid}/trace/{'labels' if not d.get('labels_ok', True) else 'value'}/{inp['mode']}/{inp['method']}"
             if d.get('labels_ok', True) and inp.get('rm') and inp['mode'] == 'list':
                 key = f"{pid}/e/remove_mean-ignored/{inp['mode']}/{inp['method']}"
+            if fl.get('class') == 'cvmany':
+                key = f"{pid}/f/default-folds/many-repetitions/labels={fl['lab']}"
             ctx.violation(key, 'recorded output is not explained by the definition recomputed in TLC on the logged input',
                           {'in': inp, 'flavour': fl, 'logged': logged, 'first_bad': d.get('first_bad'),
                            'expected': d.get('expected')})
@@ -295,7 +308,7 @@ def run(ctx):
             first = False
         v = next(r.iter_emitted())
         ctx.sample({'run': name, 'in': v['in'], 'expected': v['out']}, cap=8)
-        total += replay(ctx, r, PID, nfloat=nfloat if thorough else nfloat * 3)
+        total += replay(ctx, r, PID, nfloat=nfloat if thorough else nfloat * 3, want=kw)
     ctx.extra['vectors_replayed'] = total
     n = record_and_validate(ctx, PID, ['single', 'list', 'movie'], 3000 if thorough else 360)
     ctx.extra['recorded_executions_validated'] = n
